@@ -1,26 +1,60 @@
 import CueVerif.Model.ModCachePaths
 /-!
-C16: the cleanup of one version is confined to that version's own names — provided no other
-version's directory name extends this one's by ".tmp-…"; and that proviso is NOT implied by
-the versions being valid and different.
+C16: the cleanup `Fetch` does for one version removes that version's own directory and its
+legacy `.tmp-<digits>` siblings, and never an entry that is named after a version — so never
+the extraction directory of another version of the module.
 -/
 namespace CueVerif.ModCache
 
-/-- what the cleanup removes is the directory itself or a `.tmp-` sibling of it -/
+theorem cutPrefix_some (pre name suf : Name) (h : cutPrefix pre name = some suf) : name = pre ++ suf := by
+  unfold cutPrefix at h
+  split at h
+  · rename_i hp
+    obtain ⟨t, ht⟩ := List.isPrefixOf_iff_prefix.mp hp
+    simp only [Option.some.injEq] at h
+    subst h
+    rw [← ht]; simp
+  · cases h
+
+/-- what the cleanup removes is the directory itself, or a `.tmp-<digits>` sibling of it that
+is not named after a version -/
 theorem cleanup_confined (base name : Name) (h : cleanupRemoves base name = true) :
-    name = base ∨ ∃ rest, name = base ++ tmpSuffix ++ rest := by
-  unfold cleanupRemoves hasPrefix at h
+    name = base ∨
+      (∃ ds, name = base ++ tmpSuffix ++ ds ∧ isAllDigits ds = true) ∧ isVersionDir name = false := by
+  unfold cleanupRemoves at h
   rcases Bool.or_eq_true _ _ |>.mp h with h | h
   · exact Or.inl (by simpa using h)
-  · obtain ⟨t, ht⟩ := List.isPrefixOf_iff_prefix.mp h
-    exact Or.inr ⟨t, ht.symm⟩
+  · split at h
+    · rename_i suf hc
+      simp only [Bool.and_eq_true, Bool.not_eq_true'] at h
+      exact Or.inr ⟨⟨suf, cutPrefix_some _ _ _ hc, h.1⟩, h.2⟩
+    · cases h
 
-/-- hence it never removes the directory of another version `w`, as long as w's directory
-name is not v's name followed by ".tmp-…" -/
-theorem cleanup_spares (bv bw : Name) (hne : bw ≠ bv) (hno : hasPrefix (bv ++ tmpSuffix) bw = false) :
-    cleanupRemoves bv bw = false := by
-  unfold cleanupRemoves
-  simp [hno, hne]
+/-- an entry named after a version is never removed by the cleanup of a directory with
+another name -/
+theorem cleanup_spares_version_dirs (base name : Name) (hv : isVersionDir name = true)
+    (hne : name ≠ base) : cleanupRemoves base name = false := by
+  cases hc : cleanupRemoves base name with
+  | false => rfl
+  | true =>
+    rcases cleanup_confined base name hc with h | ⟨_, h⟩
+    · exact absurd h hne
+    · rw [hv] at h; cases h
+
+theorem afterAt_append (e r : Name) (he : ∀ c ∈ e, c ≠ 64) : afterAt (e ++ 64 :: r) = some r := by
+  induction e with
+  | nil => simp [afterAt]
+  | cons c t ih =>
+    have hc : c ≠ 64 := he c (by simp)
+    simp only [List.cons_append, afterAt, hc, if_false]
+    exact ih (fun x hx => he x (by simp [hx]))
+
+/-- the extraction directory of version `w` of a module whose last path element is `e` is
+"named after a version" -/
+theorem isVersionDir_dirBase (e w : Name) (he : ∀ c ∈ e, c ≠ 64) :
+    isVersionDir (dirBase e w) = Semver.isValid (stripBang w) := by
+  unfold isVersionDir dirBase
+  rw [List.append_assoc, List.singleton_append, afterAt_append e w he]
 
 /-- two directory names with the same module path element -/
 theorem dirBase_ne (e v w : Name) (h : v ≠ w) : dirBase e w ≠ dirBase e v := by
@@ -29,13 +63,41 @@ theorem dirBase_ne (e v w : Name) (h : v ≠ w) : dirBase e w ≠ dirBase e v :=
   have := List.append_cancel_left heq
   exact h this.symm
 
-/-- the proviso fails for valid versions: "v0.0.1-a.tmp-x" extends "v0.0.1-a" by ".tmp-x" -/
-theorem tmp_witness :
+/-- **independence**: fetching version v never removes the extraction directory of another
+version w of the same module -/
+theorem cleanup_indep (e v w : Name) (he : ∀ c ∈ e, c ≠ 64)
+    (hw : Semver.isValid (stripBang w) = true) (hne : v ≠ w) :
+    cleanupRemoves (dirBase e v) (dirBase e w) = false :=
+  cleanup_spares_version_dirs _ _ (by rw [isVersionDir_dirBase e w he]; exact hw) (dirBase_ne e v w hne)
+
+/-! ### the witnesses against the two OLD matches (and that the current one spares them) -/
+
+/-- the match BEFORE f81b1df removed the directory of the valid version "v0.0.1-a.tmp-x" when
+"v0.0.1-a" was extracted -/
+theorem old_prefix_match_witness :
     let e : Name := [113]                                            -- "q"
     let v : Name := [118,48,46,48,46,49,45,97]                       -- "v0.0.1-a"
     let w : Name := [118,48,46,48,46,49,45,97,46,116,109,112,45,120] -- "v0.0.1-a.tmp-x"
     Semver.isValid v = true ∧ Semver.isValid w = true ∧ v ≠ w ∧
-      cleanupRemoves (dirBase e v) (dirBase e w) = true := by
+      cleanupRemovesOld (dirBase e v) (dirBase e w) = true ∧
+      cleanupRemovesDigits (dirBase e v) (dirBase e w) = false ∧
+      cleanupRemoves (dirBase e v) (dirBase e w) = false := by
+  decide
+
+/-- the match of f81b1df (`.tmp-<digits>`) still removed the directory of the valid version
+"v0.0.1-a.tmp-1" -/
+theorem old_digits_match_witness :
+    let e : Name := [113]
+    let v : Name := [118,48,46,48,46,49,45,97]                       -- "v0.0.1-a"
+    let w : Name := [118,48,46,48,46,49,45,97,46,116,109,112,45,49]  -- "v0.0.1-a.tmp-1"
+    Semver.isValid v = true ∧ Semver.isValid w = true ∧ v ≠ w ∧
+      cleanupRemovesDigits (dirBase e v) (dirBase e w) = true ∧
+      cleanupRemoves (dirBase e v) (dirBase e w) = false := by
+  decide
+
+/-- a genuine legacy temporary directory of a release version is still cleaned up -/
+theorem legacy_tmp_removed :
+    cleanupRemoves (dirBase [113] [118,48,46,48,46,49]) (dirBase [113] [118,48,46,48,46,49] ++ tmpSuffix ++ [49,50,51]) = true := by
   decide
 
 end CueVerif.ModCache
